@@ -256,6 +256,56 @@ def clause_foreign_routing_id(prog, rep):
                   "the memory backend no longer refuses a nostr_group_id that belongs to a different group", f.loc())
 
 
+def clause_no_refusal_after_write(prog, rep, pw, rule="preview-gates-writes", prefix="MDK::process_welcome"):
+    """once process_welcome has started writing (pending group, relays, records), the only way it may still fail is a storage error:
+    an input-dependent refusal after the first write (e.g. `rumor.id.ok_or(..)?`) reports failure although a Pending group was left behind"""
+    wr = A.ReachCache(prog, is_write)
+    writes = [c for c in pw.live_calls() if wr.call(c) and not _parses_welcome_call(prog, c)]
+    if not writes:
+        return
+    after = set()
+    for w in writes:
+        if "to" in w.t:
+            after |= pw.reachable_from(w.t["to"])
+    late = []
+    n = 0
+    for c in pw.live_calls():
+        if c.name != "branch" or c.bb not in after or not c.args or "p" not in c.args[0]:
+            continue
+        n += 1
+        # what is being `?`-tested: a storage call's result (possibly through map_err) or something computed from the input
+        pr = A.producers(prog, pw, c.args[0]["p"][0], scope=set(), max_frames=0)
+        src = []
+        todo = list(pr["calls"])
+        seen = set()
+        while todo:
+            x = todo.pop()
+            if id(x) in seen:
+                continue
+            seen.add(id(x))
+            if x.name in ("map_err", "ok_or", "ok_or_else", "and_then", "map") and x.krate in ("core", "std", "alloc") and x.args and "p" in x.args[0]:
+                if x.name in ("ok_or", "ok_or_else"):
+                    src.append(x)
+                    continue
+                todo += A.producers(prog, pw, x.args[0]["p"][0], scope=set(), max_frames=0)["calls"]
+            else:
+                src.append(x)
+        if src and all(wr.call(x) or (x.trait or "").startswith("mdk_storage_traits::") for x in src):
+            continue
+        late.append((c, sorted(set(x.name for x in src)) or ["a value computed from the input"]))
+    for c, names in late[:3]:
+        rep.violation(rule, "%s/refusal-after-write/%s" % (prefix, "+".join(names)),
+                      "after the pending group / relays were stored the call can still be refused on %s: the invitation is reported as failed "
+                      "but a Pending group stays behind" % ", ".join(names), c.loc())
+    if not late:
+        rep.ok(rule, "%s/refusal-after-write" % prefix, "after the first write only storage errors can make the call fail (%d `?` sites examined)" % n)
+    rep.floor(rule, "`?` sites after the first write in process_welcome", n, 2)
+
+
+def _parses_welcome_call(prog, c):
+    return any(_parses_welcome(prog, t) for t in prog.call_targets(c))
+
+
 def clause_existing_group(prog, rep, pw):
     """writes keyed by the inviter-chosen group id must depend on a lookup of that id (existing Active group untouched)"""
     lookups = [c for c in pw.live_calls() if A.ReachCache(prog, lambda x: K.is_storage_trait_call(x, "find_group_by_mls_group_id")).call(c)
@@ -348,6 +398,7 @@ def run(ctx, rep):
     clause_dedup(prog, rep, pw)
     clause_preview_gate(prog, rep, pw)
     clause_existing_group(prog, rep, pw)
+    clause_no_refusal_after_write(prog, rep, pw)
     clause_foreign_routing_id(prog, rep)
     clause_pending_only(prog, rep, pw)
     clause_accept_decline(prog, rep)
